@@ -97,7 +97,7 @@ ASSUME \A o \in SeqOpts : ValidOpt(o)
 Z2Pat        == IF opt.zpat = "alt" THEN "ed" ELSE "alt"
 ZPatV(v)     == IF v = 1 THEN opt.zpat ELSE Z2Pat
 WDataV(e, v) == IF v = 1 THEN e.wdata ELSE RAdd(e.wdata, R(2))
-Prior2       == [mean |-> [i \in 1..DomDim(opt) |-> (i % 3) - 1], var |-> Q(9, 4), geom |-> "gdom"]
+Prior2       == [mean |-> [i \in 1..DomDim(opt) |-> (i % 3) - 1], var |-> Q(9, 4), geom |-> heap.model.dgeom]
 PriorV(v)    == IF v = 1 THEN PriorOf(opt, D) ELSE Prior2
 DName(v)     == IF v = 1 THEN "data" ELSE "data2"
 PName(v)     == IF v = 1 THEN "prior" ELSE "prior2"
@@ -131,7 +131,7 @@ SInit == /\ opt \in SeqOpts
          /\ route \in Routes
          /\ hist = <<>> /\ recs = <<>> /\ cur = [dver |-> 1, pver |-> 1] /\ handed = Null /\ cache = Null /\ stated = Null
 
-Construct == ResolveOptions \/ BuildModel \/ MakeExact \/ MakeDataDist \/ SampleData \/ MakeLikelihood \/ Assemble
+Construct == ResolveOptions \/ SelectGeometry \/ BuildModel \/ MakeExact \/ MakeDataDist \/ SampleData \/ MakeLikelihood \/ Assemble
 
 \* the caller prepares the second versions; on the route "setdata" the object under test is the generic problem built
 \* from the data distribution and the prior of the test problem, WITHOUT data
@@ -188,7 +188,7 @@ SetData(v) ==
           /\ heap' = [k \in DOMAIN heap \cup {"lik_s", "post_s"} |->
                         IF k = "lik_s" THEN [model |-> heap.ddist.model, data |-> DName(v), scale |-> heap.ddist.scale,
                                              svec |-> heap.ddist.svec]
-                        ELSE IF k = "post_s" THEN [lik |-> "lik_s", prior |-> heap.joint.prior, geom |-> "gdom"]
+                        ELSE IF k = "post_s" THEN [lik |-> "lik_s", prior |-> heap.joint.prior, geom |-> heap[heap.ddist.model].dgeom]
                         ELSE heap[k]]
           /\ prob' = [prob EXCEPT !.target = "post_s"]
     /\ Log("D", v, [cur EXCEPT !.dver = v])
